@@ -348,6 +348,24 @@ def replay(path: str) -> int:
     r = mod.run_case(rp["case"])
     if isinstance(r, CaseResult):
         r = r.as_dict()
+    if hasattr(mod, "stage2") and isinstance(r.get("extra"), dict):
+        # distributional check: repeat the two-stage decision for this case
+        import numpy as np
+
+        from .stats import Z_FLAG
+
+        flags = r["extra"].get("flags", {})
+        print("stage-1 flags:", flags)
+        if flags:
+            r2 = mod.run_case(mod.stage2(rp["case"]))
+            if isinstance(r2, CaseResult):
+                r2 = r2.as_dict()
+            for name, z1 in flags.items():
+                z2 = (r2.get("extra") or {}).get("stats", {}).get(name)
+                ok = z2 is not None and (not np.isfinite(z2) or abs(z2) > Z_FLAG) and np.sign(z2) == np.sign(z1)
+                print(f"  {name}: z1={z1:.2f} z2={z2 if z2 is None else round(z2, 2)} confirmed={ok}")
+                if ok:
+                    r["violations"].append({"mech": r["extra"].get("mech", "distribution"), "msg": f"{name} confirmed"})
     print(json.dumps({"violations": r["violations"], "monitors": r["monitors"]},
                      indent=1, default=str)[:6000])
     if r["violations"]:
